@@ -68,6 +68,13 @@ func (s *orRuleSetLoader) Load(lex lexeme.LexEvent) bool {
 	return s.inProgress
 }
 
+// NewLine passes the end of a line to the "enum" value being loaded.
+func (s *orRuleSetLoader) NewLine() {
+	if l, ok := s.embeddedValueLoader.(lineAwareLoader); ok {
+		l.NewLine()
+	}
+}
+
 func (s *orRuleSetLoader) embeddedLoad(lex lexeme.LexEvent) {
 	if !s.embeddedValueLoader.Load(lex) {
 		s.embeddedValueLoader = nil
